@@ -109,3 +109,6 @@ Definition dynamic_tree (d : dynamic) : tree := TL [TI (dy_type d); TI (dy_statu
 Definition dynamic_of_tree (t : tree) : dynamic :=
   {| dy_type := t_int (t_nth 0 t); dy_status := t_int (t_nth 1 t); dy_id := t_bytes (t_nth 2 t);
      dy_stmt := t_bytes (t_nth 3 t) |}.
+
+Lemma dynamic_of_tree_tree d : dynamic_of_tree (dynamic_tree d) = d.
+Proof. destruct d; reflexivity. Qed.
